@@ -172,6 +172,18 @@ CLAIMED.update({
     note='Trusted: shim (NumPy view/copy semantics come from the real object ndarray underneath), z3. Two known findings recorded.',
     ref='DESIGN.md section 8 C06'),
 })
+CLAIMED.update({
+ 'C12': dict(engine='symnp + cy2smt',
+    technique='statement blocks of _prinz_mle_py extracted from the current source (AST) and the loop bodies of _mle_prinz_dense (typed Cython tree) executed symbolically from an arbitrary invariant state; RelErr float model (QF_NRA) and bit-precise FP model for the final assertions; z3',
+    text='From an ARBITRARY state satisfying the sweep invariant, z3 proves that the diagonal and the pair update of the current source each '
+         'establish their Prinz stationarity equation, keep X symmetric with X_rs its row sums, and that `assert c <= 0` cannot fire (so every '
+         'fixed point satisfies the self-consistency equations); that the compiled and the Python update blocks compute the same state; that '
+         'the final normalisation assertions cannot fire under rounding (RelErr model, u=2^-53); and that a run reaching max_iter warns instead '
+         'of raising, in both implementations.',
+    note='Trusted: both engines, z3, sqrt/log contracts. NOT decided (cannot be encoded): convergence of the iteration and the global '
+         'maximum-likelihood claim at the limit; the differing stopping metrics (log vs log10); sparse inputs.',
+    ref='DESIGN.md section 8 C12'),
+})
 PENDING = 'check not built yet in this session (work in progress; see DESIGN.md section 8 for the plan)'
 NA = {}
 
